@@ -123,6 +123,7 @@ type results struct {
 	PoSBlocks   int            `json:"posBlocks"`
 	EventBlocks int            `json:"blocksWithEventTxs"`
 	Distinct    int            `json:"distinctScenarioShapes"`
+	Shapes      []string       `json:"shapes"`
 	Violations  []violation    `json:"violations"`
 	Drift       []string       `json:"drift"`
 	Notes       []string       `json:"notes"`
@@ -661,7 +662,12 @@ func (r *run) pack(name, par string, p, now int, txs []Tx) *blk {
 	for _, t := range txs {
 		ks = append(ks, fmt.Sprintf("%s%d.%d", t.K, t.M, t.V))
 	}
-	r.shapes[fmt.Sprintf("%v|%d|%d|%v|%s|%v", isPos, len(pids), slot, inactive, strings.Join(ks, ","), fmt.Sprint(parent.world.Auth, parent.world.Bal, parent.world.Thr, parent.world.Mbp, parent.world.Lgo))] = true
+	if event || slot > 1 || inactive {
+		// a non-trivial scenario shape: consensus mode, size of the proposer list, slot taken, inactive proposer, tx kinds, parent world
+		key := fmt.Sprintf("%v|%d|%d|%v|%s|%v", isPos, len(pids), slot, inactive, strings.Join(ks, ","), fmt.Sprint(parent.world.Auth, parent.world.Bal, parent.world.Thr, parent.world.Mbp, parent.world.Lgo, parent.world.Queue))
+		h := thor.Blake2b([]byte(key))
+		r.shapes[fmt.Sprintf("%x", h[:8])] = true
+	}
 	return b
 }
 
@@ -1133,6 +1139,10 @@ func main() {
 	}
 	res.Runs = len(all)
 	res.Distinct = len(shapes)
+	for k := range shapes {
+		res.Shapes = append(res.Shapes, k)
+	}
+	sort.Strings(res.Shapes)
 	sort.Slice(res.Violations, func(i, j int) bool { return res.Violations[i].Run < res.Violations[j].Run })
 	must(trace.WriteNDJSON(filepath.Join(*out, "trace.ndjson"), evs))
 	js, _ := json.MarshalIndent(res, "", " ")
